@@ -8,12 +8,15 @@ import srvkit
 from props import c08
 
 ID = "C13"
-LEAN_MODEL_TARGETS = ["drv_c08"]
-LEAN_PROOF_TARGETS = ["PyroProps.C13"]
-AUDIT_FILES = ["PyroModel/Server.lean", "PyroModel/Gen/C13.lean", "PyroProps/C13.lean"]
+LEAN_MODEL_TARGETS = ["drv_c08", "drv_c13close"]
+LEAN_PROOF_TARGETS = ["PyroProps.C13", "PyroProps.C13Ast"]
+AUDIT_FILES = ["PyroModel/Server.lean", "PyroModel/Gen/C13.lean", "PyroProps/C13.lean", "PyroModel/PyIR.lean", "PyroProps/C13Ast.lean"]
 THEOREMS = ["Pyro.C13.C13_once", "Pyro.C13.C13_closes_what_is_tracked", "Pyro.C13.C13_endings_close",
-            "Pyro.C13.C13_idempotent_close", "Pyro.C13.C13_frame", "Pyro.C13.C13_daemon", "Pyro.C13.C13_gen_facts"]
-SUITES = ["cleanup"]
+            "Pyro.C13.C13_idempotent_close", "Pyro.C13.C13_frame", "Pyro.C13.C13_daemon", "Pyro.C13.C13_gen_facts",
+            # SocketConnection.close transcribed from the source on every run (py2ir.py): never raises, closes every tracked
+            # resource exactly once whatever raises, leaves nothing behind; keep_open touches nothing; a second close closes nothing
+            "Pyro.C13Ast.close_translated", "Pyro.C13Ast.close_keep_open", "Pyro.C13Ast.close_twice"]
+SUITES = ["cleanup", "close"]
 RULE = ("histories over 1-3 connections on the real thread-pool and multiplex transports (in-memory sockets): accepted handshake, "
         "0-5 requests that track / untrack resources, use a session-mode object, return, raise every exception class, then an "
         "ending (orderly eof at a boundary, cut at every kind of offset, garbage, timeout, security error, callback re-raise) "
@@ -21,7 +24,10 @@ RULE = ("histories over 1-3 connections on the real thread-pool and multiplex tr
         "accepted connection that tracked >= 1 resource and ended; distinct = distinct model line x transport")
 ASSUMPTIONS = ["garbage collection of weakly tracked resources is not exercised (the harness keeps them alive)",
                "a daemon shut down while connections are open is outside the property's list of endings"]
-TRUSTED = ["harness/srvkit.py (in-memory sockets, fake selector/listener; real Daemon, real transports, real Pool)"]
+TRUSTED = ["harness/srvkit.py (in-memory sockets, fake selector/listener; real Daemon, real transports, real Pool)",
+           "harness/py2ir.py + lean/PyroModel/PyIR.lean as the meaning of the fragment SocketConnection.close is written in "
+           "(with contextlib.suppress(Exception), for over a collection, method calls that may raise); exercised on every run by "
+           "suite `close`: the real method on fake sockets / resources vs the interpreter on the transcription (drv_c13close)"]
 
 
 def extract():
@@ -70,8 +76,16 @@ def extract():
     each = any(isinstance(n, ast.For) and "tracked_resources" in ast.unparse(n.iter) and "close()" in ast.unparse(n)
                for n in ast.walk(close))
     b = lambda x: "true" if x else "false"
+    # SocketConnection.close itself, transcribed statement by statement into the PyIR deep embedding
+    import py2ir
+    tr = py2ir.Tr(socketutil)
+    close_ast = py2ir.wrap(tr.function("close", ["self"], owner=socketutil.SocketConnection))
     return f"""-- GENERATED by harness/props/c13.py from Pyro5/svr_threads.py, svr_multiplex.py, socketutil.py — do not edit
+import PyroModel.PyIR
 namespace Pyro.Gen.C13
+/-- `SocketConnection.close(self)` as it is written now (harness/py2ir.py, one node per Python AST node) -/
+def closeSrc : Pyro.PyIR.Stmt :=
+  {close_ast}
 /-- calls in the `finally:` of ClientConnectionJob.__call__, in order -/
 def threadFinally : List String := {json.dumps(thread_finally)}
 /-- calls in the `if not active:` branch of SocketServer_Multiplex.events, in order -/
@@ -263,8 +277,90 @@ def _run(ctx, name, n, do_model, sweep=True):
                 ctx.mismatch("cleanup", {"line": l, "servertype": c["servertype"], "case": c}, r, m)
 
 
+# ---- SocketConnection.close on its own: the real method vs the PyIR interpreter on its transcription ------------
+def _close_suite(ctx, n):
+    from Pyro5 import socketutil
+    rng = ctx.sub_rng("close")
+    lines, reals = [], []
+    for _ in range(n):
+        keep = rng.random() < 0.15
+        ids = rng.sample(range(1, 40), rng.choice([0, 0, 1, 2, 3, 5, 8]))
+        raising = [i for i in ids if rng.random() < 0.3]
+        ninst = rng.choice([0, 1, 3])
+        sr, cr = rng.random() < 0.3, rng.random() < 0.3
+        log = []
+
+        class Sock:
+            def shutdown(self, how):
+                log.append("S")
+                if sr:
+                    raise OSError("shutdown fails")
+
+            def close(self):
+                log.append("C")
+                if cr:
+                    raise OSError("close fails")
+
+        class Res:
+            def __init__(self, i):
+                self.i = i
+
+            def close(self):
+                log.append(self.i)
+                if self.i in raising:
+                    raise RuntimeError("resource %d fails to close" % self.i)
+
+            def __len__(self):
+                return self.i % 2
+        conn = socketutil.SocketConnection(Sock(), "obj", keep_open=keep)
+        objs = [Res(i) for i in ids]
+        for o in objs:
+            conn.tracked_resources.add(o)
+        conn.pyroInstances = {k: object() for k in range(ninst)}
+        try:
+            r = conn.close()
+            outcome = "returned" if keep else "normal"        # (Python cannot tell `return` from falling off the end)
+        except BaseException as x:
+            outcome = "raised"
+        ctx.evaluations += 1
+        ctx.count("close:" + outcome)
+        # the set iterates in its own order: compare the socket calls in order and the resource closes as a sorted list
+        canon = lambda l: ",".join([str(x) for x in l if x in ("S", "C")] + [str(x) for x in sorted(y for y in l if y not in ("S", "C"))]) or "-"
+        reals.append("%s | %s | %d | %d" % (outcome, canon(log), len(conn.tracked_resources), len(conn.pyroInstances)))
+        lines.append("close %d %s %d %s %d %d" % (keep, ",".join(map(str, ids)) or "-", ninst, ",".join(map(str, raising)) or "-", sr, cr))
+        # ---- D: the property itself on the real method
+        case = {"kind": "close", "line": lines[-1]}
+        if outcome == "raised":
+            ctx.fail("close-raises", "SocketConnection.close() raised; %s" % lines[-1], case)
+        if not keep:
+            closes = sorted(x for x in log if x not in ("S", "C"))
+            if closes != sorted(ids):
+                ctx.fail("close-not-once", "close() called close() on resources %r, tracked were %r" % (closes, sorted(ids)), case)
+            if len(conn.tracked_resources) or len(conn.pyroInstances):
+                ctx.fail("close-leaves-state", "after close() the connection still holds %d tracked resources / %d session instances"
+                         % (len(conn.tracked_resources), len(conn.pyroInstances)), case)
+            before = len(log)
+            conn.close()
+            if [x for x in log[before:] if x not in ("S", "C")]:
+                ctx.fail("close-twice-closes-again", "a second close() closed resources again: %r" % log[before:], case)
+        if len(ids) >= 2 and raising:
+            ctx.nontriv(lines[-1])
+        conn.keep_open = True       # __del__ calls close() again: nothing more to observe
+    outs = common.run_driver("drv_c13close", lines)
+    ctx.corr_cases += len(lines)
+    for l, r, o in zip(lines, reals, outs):
+        f = o.split(" | ")
+        if len(f) == 4:
+            parts = f[1].split(",") if f[1] != "-" else []
+            f[1] = ",".join([x for x in parts if x in ("S", "C")] + [str(x) for x in sorted(int(y) for y in parts if y not in ("S", "C"))]) or "-"
+            o = " | ".join(f)
+        if r != o:
+            ctx.mismatch("close", {"line": l}, r, o)
+
+
 def correspondence(ctx):
     _run(ctx, "hist", ctx.n(90, 1200), True)
+    _close_suite(ctx, ctx.n(400, 20000))
 
 
 def oracle(ctx):
